@@ -23,11 +23,11 @@ type c01Sep struct {
 }
 
 type c01Copy struct {
-	Doc          int  `json:"doc"`    // index into the eligible documents (modulo)
-	Tiny         bool `json:"tiny"`   // prefer a document of exactly q or q+1 tokens
-	InlineBefore bool `json:"inl_b"`  // copy starts on the line of the preceding OOV words
-	InlineAfter  bool `json:"inl_a"`  // OOV words follow on the copy's last line
-	Synth        bool `json:"synth"`  // prefer a synthetic (user-added) document
+	Doc          int  `json:"doc"`   // index into the eligible documents (modulo)
+	Tiny         bool `json:"tiny"`  // prefer a document of exactly q or q+1 tokens
+	InlineBefore bool `json:"inl_b"` // copy starts on the line of the preceding OOV words
+	InlineAfter  bool `json:"inl_a"` // OOV words follow on the copy's last line
+	Synth        bool `json:"synth"` // prefer a synthetic (user-added) document
 }
 
 type c01Case struct {
